@@ -2,10 +2,10 @@ package network
 
 // Accessors for the verification harness (/verif); overlay only.
 
-func (n *NNode) VVisited() bool            { return n.visited }
-func (n *NNode) VIsActive() bool           { return n.isActive }
+func (n *NNode) VVisited() bool                       { return n.visited }
+func (n *NNode) VIsActive() bool                      { return n.isActive }
 func (n *NNode) VLastActivations() (float64, float64) { return n.lastActivation, n.lastActivation2 }
-func (n *Network) VInputs() []*NNode       { return n.inputs }
+func (n *Network) VInputs() []*NNode                  { return n.inputs }
 
 func (s *FastModularNetworkSolver) VSignals() []float64 {
 	return append([]float64(nil), s.neuronSignals...)
